@@ -29,6 +29,13 @@ CLAIMED = {
         "note": "Trusted: the isolated render of the same code as reference (differential, so a bug that shows identically alone and concurrently is invisible); SimLoop schedules real Tasks faithfully. Known finding KF-C29-1 (state in cached import modules) is tolerated only for generator-tagged programs and only if a fresh environment per task removes the mismatch.",
         "design": "DESIGN.md §4 C37, §3.4",
     },
+    "C38": {
+        "level": "fault_enumeration",
+        "technique": "deterministic simulation with fault injection at the data seam: Probe data objects raise at the k-th data event, every k per sampled history; exception identity + differential recovery renders",
+        "text": "Per sampled template set and render history (3-6 renders in one environment; sync/async, plain/sandboxed, all rendering entry points) the clean run counts the data events of every render; then every event position of every render (thorough) or a seeded sample (quick) is made to raise a private Exception / BaseException. The faulted render must raise that very object; every clean render before, between and after faults must equal its isolated reference. Histories are sampled; fault positions within a history are enumerated.",
+        "note": "Trusted: the isolated render of the same code as reference for recovery renders; the Probe classes define what a data event is. One narrow exemption: a fault raised inside the documented `sequence` capability test (detected on the Python stack) may be swallowed.",
+        "design": "DESIGN.md §4 C38",
+    },
 }
 
 PENDING_REASON = "check not built yet in this session (planned as a simulation check, DESIGN.md §4); not claimed until it exists"
